@@ -24,20 +24,21 @@ import (
 )
 
 type z9pScenario struct {
-	Name      string   `json:"name"`
-	Layers    []int    `json:"layers"`
-	Config    int      `json:"config"`
-	Faults    []string `json:"faults,omitempty"`
-	Redirect  bool     `json:"redirect,omitempty"`  // parts are redirected to the CDN (uploaded in parallel)
-	Challenge bool     `json:"challenge,omitempty"` // the registry asks for a token first
-	Cancel    bool     `json:"cancel,omitempty"`    // the client may go away at any point of the faulty attempt
-	Present   int      `json:"present,omitempty"`   // the registry already holds the first n layers
-	From      bool     `json:"from,omitempty"`      // first layer came FROM another model (cross-repository mount)
-	Other     bool     `json:"other,omitempty"`     // afterwards the same model is pushed to a second registry that holds nothing
-	Second    bool     `json:"second,omitempty"`    // a second push of a model sharing the first layer runs concurrently
-	TwoRegs   bool     `json:"two_regs,omitempty"`  // the same model is pushed to a second registry concurrently
-	Faulty    int      `json:"faulty_attempts"`     // attempts with faults/cancellation before the fault-free one
-	Cap       int      `json:"quick_total_cap,omitempty"`
+	Name       string   `json:"name"`
+	Layers     []int    `json:"layers"`
+	Config     int      `json:"config"`
+	Faults     []string `json:"faults,omitempty"`
+	Redirect   bool     `json:"redirect,omitempty"`    // parts are redirected to the CDN (uploaded in parallel)
+	Challenge  bool     `json:"challenge,omitempty"`   // the registry asks for a token first
+	Cancel     bool     `json:"cancel,omitempty"`      // the client may go away at any point of the faulty attempt
+	CancelLate bool     `json:"cancel_late,omitempty"` // ... exactly before some request (class cancel), however late
+	Present    int      `json:"present,omitempty"`     // the registry already holds the first n layers
+	From       bool     `json:"from,omitempty"`        // first layer came FROM another model (cross-repository mount)
+	Other      bool     `json:"other,omitempty"`       // afterwards the same model is pushed to a second registry that holds nothing
+	Second     bool     `json:"second,omitempty"`      // a second push of a model sharing the first layer runs concurrently
+	TwoRegs    bool     `json:"two_regs,omitempty"`    // the same model is pushed to a second registry concurrently
+	Faulty     int      `json:"faulty_attempts"`       // attempts with faults/cancellation before the fault-free one
+	Cap        int      `json:"quick_total_cap,omitempty"`
 }
 
 type z9pLayer struct {
@@ -158,12 +159,23 @@ func z9pBody(sc z9pScenario) func() {
 				srv.AuthChallenge = []string{`Bearer realm="https://reg.test/token",service="reg.test",scope="repository:lib/model:push"`}
 			}
 			ctx, cancel := gocontext.WithCancel(gocontext.Background())
+			srv.OnNetPoint = nil
 			if sc.Cancel && !clean {
 				mcrt.GoNamed(fmt.Sprintf("cancel%d", attempt), func() {
 					mcrt.Yield("client goes away")
 					mcrt.Observe("cancel")
 					cancel()
 				})
+			}
+			if sc.CancelLate && !clean {
+				gone := false
+				srv.OnNetPoint = func(label string) {
+					if !gone && mcrt.Choose(mcrt.Cancel, "client goes away before "+label, "no", "yes") == 1 {
+						gone = true
+						mcrt.Observe("cancel before %s", label)
+						cancel()
+					}
+				}
 			}
 			var err2 error
 			var done2 mcrt.WaitGroup
@@ -227,6 +239,7 @@ func z9pScenarios(thorough bool) []z9pScenario {
 		{Name: "two-layers-present", Layers: []int{3, 5}, Config: 2, Present: 1, Faults: []string{"500", "404"}, Faulty: 1},
 		{Name: "auth", Layers: []int{5}, Config: 2, Challenge: true, Faults: []string{"500"}, Faulty: 1, Cap: 1},
 		{Name: "cancel", Layers: []int{10}, Config: 2, Cancel: true, Faulty: 1},
+		{Name: "cancel-late", Layers: []int{10, 3}, Config: 2, CancelLate: true, Faults: []string{"500"}, Faulty: 1},
 		{Name: "cancel-redirect", Layers: []int{10}, Redirect: true, Cancel: true, Faulty: 1, Cap: 1},
 		{Name: "mounted-then-other-registry", Layers: []int{3, 5}, Config: 2, From: true, Other: true, Faulty: 0},
 		{Name: "shared-layer", Layers: []int{5, 3}, Second: true, Faults: []string{"500"}, Faulty: 1, Cap: 1},
@@ -271,6 +284,7 @@ func ZZVerifC09Push() {
 	bounds[mcrt.Preempt] = 1
 	bounds[mcrt.Switch] = 1
 	bounds[mcrt.Time] = 1
+	bounds[mcrt.Cancel] = 1
 	total := 2
 	budget := 100 * gotime.Second
 	if thorough {
